@@ -52,6 +52,9 @@ class _VSelector:
         return []
 
 
+_SID = [0]      # socket ids are unique across all loops of the process
+
+
 class MonSocket(socket.socket):
     """Client-side socket handed to asyncio: logs every syscall with the virtual time, injects faults."""
 
@@ -61,8 +64,8 @@ class MonSocket(socket.socket):
         self._pn = peername
         self.kind = transport_kind
         self.owner = owner
-        loop._sock_seq += 1
-        self.sid = loop._sock_seq
+        _SID[0] += 1
+        self.sid = _SID[0]
         loop.live[self.sid] = owner
         loop.ev("open", self.sid, owner, transport_kind)
 
@@ -104,7 +107,16 @@ class MonSocket(socket.socket):
         return self._chk(super().recv(n)), self._pn
 
     def recv(self, n, *a):
-        d = super().recv(n, *a)
+        # stream socket: an in-band error marker may sit behind (or in front of) ordinary data in the kernel buffer;
+        # consume only up to / exactly the marker so that data and error are delivered by separate recv() calls
+        peek = super().recv(n, socket.MSG_PEEK)
+        p = peek.find(ERR_MARK)
+        if p > 0:
+            d = super().recv(p)
+        elif p == 0:
+            d = super().recv(len(ERR_MARK) + 1)
+        else:
+            d = super().recv(n, *a)
         if not d:
             self._l.ev("eof", self.sid, self.owner)
             return d
